@@ -72,6 +72,12 @@ pub struct DumpOpts {
     /// (worker only) SIGKILL the target when this hook point is reached: e.g. ("Flushed", 3)
     #[serde(default)]
     pub kill_at: Option<(String, u32)>,
+    /// (worker only) bind-mount this file over /proc/cpuinfo in a private mount namespace
+    #[serde(default)]
+    pub cpuinfo_override: Option<String>,
+    /// (worker only) write the returned image here
+    #[serde(default)]
+    pub image_out: Option<String>,
 }
 
 impl DumpOpts {
